@@ -113,6 +113,33 @@ func init() {
 			}(r.Int63())
 		}
 		cw.Wait()
+		// reconnect storms: many connections present their first message at the same instant, two per key (one of each pair is
+		// refused); every one of them gets the registry's answer to its own request
+		for round := 0; round < 6; round++ {
+			var ts []*term
+			for k := 0; k < 8*nkeys; k++ {
+				ts = append(ts, l.dial(phones[k%nkeys], 0))
+			}
+			time.Sleep(20 * time.Millisecond)
+			fire := make(chan struct{})
+			var sw sync.WaitGroup
+			for _, t := range ts {
+				sw.Add(1)
+				go func(t *term) {
+					defer sw.Done()
+					f := t.frame(0x0002, nil)
+					<-fire
+					t.send(f)
+					t.waitRecv(1, 60*time.Millisecond)
+				}(t)
+			}
+			close(fire)
+			sw.Wait()
+			for i, t := range ts {
+				t.close(i%5 == 0)
+			}
+			time.Sleep(60 * time.Millisecond)
+		}
 		close(stop)
 		wg.Wait()
 		time.Sleep(300 * time.Millisecond) // teardowns finish: every key must be free again
